@@ -330,7 +330,30 @@ def observe_gradient(case, ndir=2):
             notes.append(f"direction {k}: <gradient, d> = {ip:.8e}, central "
                          f"difference of the misfit = {fd:.8e} (misfit "
                          f"{phi:.6e})")
+    # the same Simulation object after an in-place model update and a clean:
+    # the gradient of the new model (= a fresh simulation's)
+    m1 = case.m0 + (0.2*np.abs(case.m0) if not case.mapping.startswith("L")
+                    else 0.2)*case.rng.uniform(-1, 1, case.m0.shape)
+    set_model(sim, case, m1)
+    sim.clean('computed')
+    g1 = np.asarray(sim.gradient)
+    gf = np.asarray(case.simulation(m1).gradient)
+    if not np.allclose(g1, gf, rtol=1e-7, atol=1e-12*np.abs(gf).max()):
+        notes.append("after an in-place model update and clean: the gradient "
+                     "differs from a fresh simulation's")
     return notes
+
+
+def set_model(sim, case, m):
+    """Edit the model of a simulation in place (as an inversion does)."""
+    k = 0
+    sim.model.property_x[...] = m[k]
+    if case.case in ("HTI", "triaxial"):
+        k += 1
+        sim.model.property_y[...] = m[k]
+    if case.case in ("VTI", "triaxial"):
+        k += 1
+        sim.model.property_z[...] = m[k]
 
 
 def observe_jvec(case, gridding="same"):
@@ -356,6 +379,28 @@ def observe_jvec(case, gridding="same"):
             notes.append(f"J v differs from the central difference of the "
                          f"data: max |diff| = {np.abs(jv - fd).max():.3e}, "
                          f"max |fd| = {scale:.3e}")
+    if gridding == "same":
+        # the same Simulation object after the model was edited in place and
+        # the results were cleaned: J v is the derivative at the NEW model
+        m1 = case.m0 + (0.2*np.abs(case.m0) if not case.mapping.startswith(
+            "L") else 0.2)*case.rng.uniform(-1, 1, case.m0.shape)
+        set_model(sim, case, m1)
+        sim.clean('computed')
+        jv1 = np.array(sim.jvec(vin))
+        sp = case.simulation(m1 + h*v)
+        sp.compute()
+        sm = case.simulation(m1 - h*v)
+        sm.compute()
+        fd1 = (sp.data.synthetic.data - sm.data.synthetic.data)/(2*h)
+        if not np.abs(jv1 - fd1).max() <= 1e-4*np.abs(fd1).max():
+            notes.append("after an in-place model update and clean: J v is "
+                         "not the derivative of the data at the new model "
+                         f"(max |diff| = {np.abs(jv1 - fd1).max():.3e}, max "
+                         f"|fd| = {np.abs(fd1).max():.3e})")
+        set_model(sim, case, case.m0)
+        sim.clean('computed')
+        _ = sim.misfit
+        jv = np.array(sim.jvec(vin))
     # adjointness with a complex data-shaped w (finite where data are)
     w = (case.rng.standard_normal(jv.shape) +
          1j*case.rng.standard_normal(jv.shape))*np.abs(
